@@ -349,4 +349,26 @@ theorem dropUnits_operands (red bin : String) (u : XR) (hu : unitOf bin = some u
   · cases hr
 
 
+/-! ### The model is name-based: documented gap to an axis-position implementation
+
+  `eager_contraction_tensor` is implemented by positional einsum / tensordot calls; the model's contraction is a
+  sum over NAMED assignments.  The two statements below make explicit that nothing in the model depends on the
+  axis order in which an operand stores its inputs — so an implementation that pairs axes by position (and gets a
+  permutation wrong, cf. seeded defect C02_6) can only be caught by the per-firing correspondence, which therefore
+  drives every relative order of 3-4 shared inputs (fv/harness/c02_extra.py, family `tensordot`). -/
+
+/-- A tensor leaf's value depends on the environment only through the values of its input NAMES. -/
+theorem tensor_value_name_based (inputs : List (Name × Nat)) (dom : Dom) (data : Array XR) (e1 e2 : Env)
+    (h : AgreeOn (inputs.map (·.1)) e1 e2) :
+    denote (Term.tensor inputs dom data) e1 = denote (Term.tensor inputs dom data) e2 :=
+  denote_coincidence (Term.tensor inputs dom data) e1 e2 (by simpa [Term.fv] using h)
+
+/-- Re-laying-out the operands (any map `f` on operands that preserves each operand's named value, e.g. storing a
+    tensor with its input axes permuted) does not change the value of a contraction. -/
+theorem contraction_layout_invariant (f : Term → Term) (hf : ∀ c, denote (f c) = denote c)
+    (red bin : String) (vars : List (Name × Dom)) (ts : List Term) :
+    denote (Term.contraction red bin vars (ts.map f)) = denote (Term.contraction red bin vars ts) := by
+  funext env
+  exact denote_mapChildren f hf (Term.contraction red bin vars ts) env
+
 end FV.Props.C02
